@@ -77,6 +77,8 @@ var vhTimeType = vhreflect.TypeOf(vhtime.Time{})
 
 var vhOut *vhos.File
 
+const vhHangAfter = 45 * vhtime.Second
+
 func vhEmit(rec map[string]any) {
 	b, err := vhjson.Marshal(rec)
 	if err != nil {
@@ -865,7 +867,32 @@ func TestVerifHarness(t *vhtesting.T) {
 					}
 				}()
 				for i := 0; i < calls; i++ {
-					v := rf.F()
+					// termination: the generated functions only build small finite values (micro- to milliseconds);
+					// a call still running after vhHangAfter is reported as non-terminating
+					var v any
+					panicked := false
+					returned := make(chan struct{})
+					go func() {
+						defer func() {
+							if r := recover(); r != nil {
+								vhEmit(map[string]any{"rand": rf.Name, "panic": vhfmt.Sprint(r)})
+								panicked = true
+							}
+							close(returned)
+						}()
+						v = rf.F()
+					}()
+					select {
+					case <-returned:
+					case <-vhtime.After(vhHangAfter):
+						vhEmit(map[string]any{"rand": rf.Name, "bad": vhfmt.Sprintf("the call did not return within %s (the other generated functions return within milliseconds): non-termination", vhHangAfter)})
+						vhEmit(map[string]any{"done": true})
+						vhOut.Close()
+						vhos.Exit(0) // the runaway goroutine cannot be stopped
+					}
+					if panicked {
+						return
+					}
 					rv := vhreflect.ValueOf(v)
 					if !rv.IsValid() {
 						vhEmit(map[string]any{"rand": rf.Name, "bad": "returned nil interface"})
